@@ -391,3 +391,6 @@ func (w *World) EnsureEscrow(from *Key, denom string, amount sdkmath.Int) error 
 	}
 	return nil
 }
+
+// FarTimeout is a timeout height far in the future.
+func (w *World) FarTimeout() clienttypes.Height { return clienttypes.NewHeight(1, 1_000_000_000) }
